@@ -156,6 +156,44 @@ CHECKS = {
              "positions, not message-relative) is recorded as a known finding.",
         note=TB + " A-SEEK. 'Expands to the intended name' beyond the record-before-write clause is not decided.",
         ref="DESIGN.md section 4 C07"),
+    "C13": dict(
+        technique="decision-table evaluation of the filter closures + provenance (def-use) rules on build_reply's MIR + key-shape rule",
+        text="PARTIAL. On simple_mdns::build_reply: the answer filter's decision table is match_qclass(question.qclass) AND "
+             "match_qtype(question.qtype) (all 16 outcome combinations evaluated) and every pushed answer is a clone of an item "
+             "drawn through it from get_domain_resources(&question.qname, authoritative(true)); additional records come only "
+             "from the (A or AAAA) AND class filter over get_domain_resources(&srv.target, authoritative(false)); the reply is "
+             "new_reply(query id), the unicast flag is assigned only under question.unicast_response, None iff no answer; trie "
+             "keys carry a per-label delimiter (necessary for label-wise matching).",
+        note="Does not decide that trie lookup is label-wise equality / subdomain for all stores (value-level); the match "
+             "functions themselves are C18-R4. Trusted: rustc MIR, radix_trie's prefix semantics.",
+        ref="DESIGN.md section 4 C13"),
+    "C15": dict(
+        technique="variant-set agreement between sibling functions + decision-table evaluation of the ingest filter closures",
+        text="PARTIAL. The RData variants InstanceInformation::into_records (and the conversion helpers it calls) builds are exactly "
+             "those from_records consumes, each arm storing into the matching collection; in both back-ends the filter in front "
+             "of add_cached_resource evaluates to name != own instance AND name.is_subdomain_of(service) for all four outcome "
+             "combinations.",
+        note="Does not decide set / attribute equality across the wire nor the escape / unescape inverse (value-level).",
+        ref="DESIGN.md section 4 C15"),
+    "C19": dict(
+        technique="cast scan over the reachable functions + numeric entailment at CharacterString constructions + constant / shape rules",
+        text="PARTIAL. No char is narrowed to a smaller integer in anything reachable from the TXT conversions (separator clause); "
+             "every CharacterString construction outside into_owned is entailed to have data.len() <= 255 (length-limit clause); "
+             "text is chunked with a constant size in 1..=254; String::try_from(TXT) folds over the strings in order appending "
+             "each once (byte-level losslessness of split / join).",
+        note="Does not decide the attribute-map round trip (absent vs empty, first-wins) - value-level. The out-of-crate half of "
+             "the construction rule is the pub(crate) privacy of CharacterString::data, enforced by the compiler.",
+        ref="DESIGN.md section 4 C19"),
+    "C20": dict(
+        technique="decision-table evaluation of match_filter and the filter constructors + path effects of add_cached_resource + read/removal site scans",
+        text="PARTIAL. match_filter's table is Authoritative -> self.authoritative, Cached(e) -> self.cached AND e.expire_at > "
+             "Instant::now() (operand order checked); cached() excludes authoritative records and authoritative(_) excludes cached "
+             "ones; every record get_domain_resources yields went through that filter and the trie is read nowhere else but "
+             "get_next_refresh; add_cached_resource passes ttl 1 under cache_flush else resource.ttl to ExpirationInfo::new, whose "
+             "expire_at is now() + from_secs(ttl), and inserts (replaces) the entry; records are removed only by "
+             "remove_resource_record / clear.",
+        note="Does not decide behaviour over real elapsed time (histories with a wall clock): no static argument bounds that.",
+        ref="DESIGN.md section 4 C20"),
 }
 
 NA = {
